@@ -111,12 +111,55 @@ def run(ctx) -> None:
     r2.check(table == want, f"extraEf table {table} = stencil half-widths {want}", init, ex[0],
              f"the scan is extended by {table} Fermi levels per side but the finite-difference stencils need {want}: the "
              f"derivative at the ends of the requested range uses levels that were never accumulated (or wastes levels)")
-    ti = norm(init.node).replace(" ", "")
-    r2.check("self.EFmin=Efermi[0]-self.extraEf*self.dEF" in ti and "self.EFmax=Efermi[-1]+self.extraEf*self.dEF" in ti and
-             "self.nEF_extra=Efermi.shape[0]+2*self.extraEf" in ti and "self.dEF=Efermi[1]-Efermi[0]iflen(Efermi)>1else0.001" in ti,
+    IS_ = Sem(idx, init)
+    IS_.inline_helpers = False
+    efp = init.params[1]
+
+    def attr_value(name: str) -> Optional[ast.AST]:
+        st_ = [s_ for s_ in stmts(init.node) if isinstance(s_, ast.Assign) and len(s_.targets) == 1 and norm(s_.targets[0]) == f"self.{name}"]
+        return IS_.resolve(st_[-1].value, IS_.cfg.node(st_[-1])) if st_ else None
+
+    def scan_env(x):
+        t_ = norm(x).replace(" ", "")
+        if t_ in (f"{efp}[0]", f"self.Efermi[0]"):
+            return Rat.sym("E0")
+        if t_ in (f"{efp}[-1]", "self.Efermi[-1]"):
+            return Rat.sym("EN")
+        if t_ in (f"{efp}[1]", "self.Efermi[1]"):
+            return Rat.sym("E1")
+        if t_ in (f"{efp}.shape[0]", f"len({efp})", "self.Efermi.shape[0]", "len(self.Efermi)", f"{efp}.size", "self.Efermi.size"):
+            return Rat.sym("N")
+        if t_ == "self.extraEf":
+            return Rat.sym("X")
+        if t_ == "self.dEF":
+            return Rat.sym("D")
+        return None
+
+    def alg(name: str, want: Rat) -> bool:
+        v_ = attr_value(name)
+        if v_ is None:
+            return False
+        try:
+            return to_rat(v_, scan_env).equals(want)
+        except AnalysisError:
+            return False
+    E0, EN, E1, N_, X_, D_ = (Rat.sym(x) for x in ("E0", "EN", "E1", "N", "X", "D"))
+    dv_ = attr_value("dEF")
+    okd = False
+    if isinstance(dv_, ast.IfExp):
+        tt = norm(dv_.test).replace(" ", "")
+        many = tt in (f"len({efp})>1", f"{efp}.shape[0]>1", f"{efp}.size>1", f"len({efp})>=2", "len(self.Efermi)>1")
+        one = tt in (f"len({efp})<=1", f"len({efp})<2", f"len({efp})==1")
+        if many or one:
+            a_, b_ = (dv_.body, dv_.orelse) if many else (dv_.orelse, dv_.body)
+            try:
+                okd = to_rat(a_, scan_env).equals(E1 - E0) and isinstance(b_, ast.Constant) and isinstance(b_.value, float) and b_.value > 0
+            except AnalysisError:
+                okd = False
+    r2.check(okd and alg("EFmin", E0 - X_ * D_) and alg("EFmax", EN + X_ * D_) and alg("nEF_extra", N_ + Rat.const(2) * X_),
              "EFmin/EFmax/nEF_extra extend the scan by extraEf·dEF on both sides", init, ex[0],
-             "the extended scan range is not Efermi[0] − extraEf·dEF … Efermi[-1] + extraEf·dEF with 2·extraEf extra points",
-             stmt="EFmin/EFmax/nEF_extra")
+             "the extended scan range is not Efermi[0] − extraEf·dEF … Efermi[-1] + extraEf·dEF with 2·extraEf extra points "
+             "(dEF = Efermi[1] − Efermi[0])", stmt="EFmin/EFmax/nEF_extra")
 
     # ---------------------------------------------------------------- R13.1
     r1 = ctx.rule("R13.1", "fder = n arms are the n-th central finite differences of the sea accumulation", min_instances=3)
@@ -444,6 +487,11 @@ def run(ctx) -> None:
 from ..selftest import V  # noqa: E402
 
 SELFTEST = [
+    V("upper end of the scan not extended", ST, "            self.EFmax = Efermi[-1] + self.extraEf * self.dEF\n", "            self.EFmax = Efermi[-1] + self.dEF\n", "fire", "R13.2"),
+    V("extra points counted once", ST, "            self.nEF_extra = Efermi.shape[0] + 2 * self.extraEf\n", "            self.nEF_extra = Efermi.shape[0] + self.extraEf\n", "fire", "R13.2"),
+    V("neutral: scan extension through named temporaries", ST,
+      "            self.EFmin = Efermi[0] - self.extraEf * self.dEF\n            self.EFmax = Efermi[-1] + self.extraEf * self.dEF\n            self.nEF_extra = Efermi.shape[0] + 2 * self.extraEf\n",
+      "            margin = self.extraEf * self.dEF\n            self.EFmin = Efermi[0] - margin\n            self.EFmax = margin + Efermi[-1]\n            self.nEF_extra = len(Efermi) + self.extraEf + self.extraEf\n", "silent"),
     V("first derivative: forward difference", ST, "restot = (restot[:, 2:] - restot[:, :-2]) / (2 * self.dEF)",
       "restot = (restot[:, 2:] - restot[:, 1:-1]) / (2 * self.dEF)", "fire", "R13.1"),
     V("second derivative: missing factor 2 on the centre", ST, "(restot[:, 2:] + restot[:, :-2] - 2 * restot[:, 1:-1]) / (self.dEF ** 2)",
